@@ -453,6 +453,7 @@ Definition c11_eval (x : Z * list Z) : list Z :=
   | 5 => snd (decode_typename (as_c d))
   | 6 => let '(ti, fl, nm) := decode_struct (as_c d) in fl :: nm
   | 7 => let '(ti, pr, nm, en) := decode_enum (as_c d) in nm ++ [-1] ++ en
+  | 9 => decode_types d
   | _ => [decode_int 64 a]
   end.
 """
@@ -586,6 +587,11 @@ def eval_module(ctx, c, r, batch):
         ctx.mismatch(c, "records of the generated module name %r, the imported module lists %r" % (
             (vis(ref_td), vis(ref_st), vis(ref_un)), (vis(td), vis(st_), vis(un))),
             "names in the generated _typenames/_struct_unions records vs list_types() of the imported module")
+    ty = recs.get("_types")
+    if ty:
+        # the whole _types string: model of the ffiobj_init loop vs 4-byte signed big-endian slicing
+        ref = [int.from_bytes(bytes(ty[k:k + 4]), "big", signed=True) for k in range(0, len(ty) - len(ty) % 4, 4)]
+        batch.add(9, ty, ref, rec_bad(ctx, c, "_types string (list of words)", ty))
     for x in recs.get("_enums", []):
         nm = bytes(x[8:]).split(b"\0")[0].decode()
         ens = r["enums"].get("enum " + nm)
@@ -667,7 +673,9 @@ MANIFEST = dict(
     text="Proof: for every opcode < 256 and every 24-bit signed argument, the bytes written by the regenerated "
          "CffiOp.as_python_bytes/format_four_bytes are decoded by the model of cdl_4bytes/_CFFI_GETOP/_CFFI_GETARG to the "
          "same (op, arg); array lengths below 2^31, struct/field/enum/typename/global records with NUL-free names and "
-         "integer constants in [-2^63, 2^64) survive, and the statement is refuted outside those ranges by computed "
+         "integer constants in [-2^63, 2^64) survive; the whole `_types` string of any list of ops and the whole `_globals` / "
+         "`_struct_unions` tuples decode to what they were built from (C11_types_table, C11_globals_table, "
+         "C11_struct_unions_table); the statement is refuted outside those ranges by computed "
          "witnesses that are replayed on the implementation (known findings). Whole-module equivalence (types, fields, "
          "constants, list_types, dlopen) is checked on random cdefs against the in-line FFI: partial (sampling).",
     note="Trusted: Coq kernel; py2coq + shape checks; hand model of the C decoder (differentially tested against the "
